@@ -125,6 +125,13 @@ def run(ctx):
     user = lambda const: ('F', fx, [units.var(fv, 'v', 'i'), units.var(g2, 'e', 'i', None, const)], [('a', fv, [g2])])
     add_group('two-configurations-valid', [progd, conf1, conf2, user(True)], None)
     add_group('two-configurations-external-not-const', [progd, conf1, conf2, user(False)], 'external-not-const')
+    # a function block that holds an array of instances of another one (the analyzer follows no reference through an array,
+    # so which of the two it meets first follows the declaration / file order), valid and with a fault in the program
+    cal, cin, car, carr, cv, pa, pav = 980, 981, 982, 983, 984, 985, 986
+    callee = ('F', cal, [units.var(cin, 'i', 'i')], [])
+    caller = ('F', car, [units.var(carr, 'v', f'f:{cal}'), units.var(cv, 'v', 'i')], [('a', cv, [])])
+    add_group('array-of-instances-valid', [callee, caller, ('P', pa, [units.var(pav, 'v', 'i')], [('a', pav, [])])], None)
+    add_group('array-of-instances-undefined-var', [callee, caller, ('P', pa, [units.var(pav, 'v', 'i')], [('a', pav, [7996])])], 'undefined-var-rhs')
     # a function and an unrelated program that uses the function's name as a variable: undeclared there, whichever of
     # the two is analysed first
     fn, fa, pm, pl = 960, 961, 962, 963
